@@ -560,3 +560,66 @@ def _ancestors(f: Func):
     while g is not None:
         yield g
         g = g.parent
+
+
+# ---- typed-array views: the buffer is the truth -----------------------------------------------------------
+def rule_typed_array_reads_through_buffer(ctx, rep, rid: str) -> None:
+    """A typed array over an ArrayBuffer keeps a private list `_data` that only mirrors what was written through
+    this very view; other views write the buffer.  Element reads therefore go through get_index (which reads the
+    buffer); reading `_data` of a typed array from outside its class sees stale values for shared buffers."""
+    rep.rule(rid, "outside the typed-array class, element values of a typed array are obtained through get_index (the buffer is read for views): `_data` of a typed array is only measured with len(), never read or iterated", floor=1)
+    n = 0
+    for f in ctx.tree.funcs:
+        if isinstance(f.node, ast.Lambda) or f.module.name not in ("vm", "context"):
+            continue
+        in_ta_factory = any(g.name == "_make_typed_array_method" for g in _ancestors(f))
+        recv = None
+        if in_ta_factory:
+            fac = next(g for g in _ancestors(f) if g.name == "_make_typed_array_method")
+            ps = [p for p in fac.params() if p not in ("self", "method")]
+            recv = ps[0] if ps else None
+        for x in f.own_nodes():
+            if not (isinstance(x, ast.Attribute) and x.attr == "_data" and isinstance(x.ctx, ast.Load) and isinstance(x.value, ast.Name)):
+                continue
+            v = x.value.id
+            typed = (v == recv) or any(pol and norm(t).startswith(f"isinstance({v}, ") and "TypedArray" in norm(t) for t, pol in guards_of(x, f.node))
+            if not typed:
+                continue
+            p = getattr(x, "_parent", None)
+            n += 1
+            key = f"{f.qual}:{v}._data:{type(p).__name__}"
+            if isinstance(p, ast.Call) and norm(p.func) == "len":
+                rep.ok(rid, key, {"use": "len"})
+            elif isinstance(p, ast.Subscript) and isinstance(p.ctx, ast.Store):
+                rep.ok(rid, key, {"use": "initialising write"})
+            else:
+                rep.bad(rid, key, f"{f.qual} reads element values from {v}._data ({short(p, 40)}): for a view over a shared ArrayBuffer that list only mirrors writes made through the same view, so values written through a sibling view, a subarray or a view of another width are missed (get_index reads the buffer)", f"{f.module.rel}:{x.lineno}")
+    rep.ok(rid, "typed-array-mirror", {"reads_examined": n})
+
+
+def rule_no_read_after_write_between_views(ctx, rep, rid: str) -> None:
+    """A typed-array native that copies from a script-supplied typed array into its receiver must not interleave the
+    reads with the writes: the source can be a view over the receiver's buffer, and an element written early is then
+    read back later instead of its original value."""
+    rep.rule(rid, "a typed-array native that copies elements from another (script-supplied) array into the receiver reads all source elements before the first write: no loop both writes the receiver and reads the source", floor=1)
+    n = 0
+    for f in ctx.tree.funcs:
+        if isinstance(f.node, ast.Lambda) or not any(g.name == "_make_typed_array_method" for g in _ancestors(f)):
+            continue
+        fac = next(g for g in _ancestors(f) if g.name == "_make_typed_array_method")
+        ps = [p for p in fac.params() if p not in ("self", "method")]
+        recv = ps[0] if ps else "arr"
+        for loop in f.own_nodes():
+            if not isinstance(loop, (ast.For, ast.While)):
+                continue
+            writes = [c for c in ast.walk(loop) if isinstance(c, ast.Call) and isinstance(c.func, ast.Attribute) and c.func.attr == "set_index" and norm(c.func.value) == recv]
+            reads = [c for c in ast.walk(loop) if isinstance(c, ast.Call) and isinstance(c.func, ast.Attribute) and c.func.attr == "get_index" and norm(c.func.value) != recv and any(c is x for b in loop.body for x in ast.walk(b))]
+            if not writes:
+                continue
+            n += 1
+            key = f"{f.qual}:copy-loop@{short(loop.target if isinstance(loop, ast.For) else loop.test, 20)}"
+            if reads:
+                rep.bad(rid, key, f"{f.qual} reads {norm(reads[0].func.value)}.get_index(..) and writes {recv}.set_index(..) in the same loop: when the source is a view over the receiver's buffer (a.set(a.subarray(0, 3), 1)) elements are overwritten before they are read", f"{f.module.rel}:{loop.lineno}")
+            else:
+                rep.ok(rid, key)
+    rep.ok(rid, "typed-array-copy-loops", {"examined": n})
